@@ -221,9 +221,9 @@ theorem parseFsElem_res (K : Consts) (ts : TypeSystem) (tsIdx : Nat) (hp : Heap)
     split
     · refine OkP.bind (fun x hx => ?_)
       cases hx
-      exact fs_tail2 ht (NExt.refl _)
+      exact fs_tail2 (getType_of_getTypeExact ht) (NExt.refl _)
     · refine OkP.bind (fun x hx => ?_)
-      refine fs_tail2 ht ?_
+      refine fs_tail2 (getType_of_getTypeExact ht) ?_
       refine foldlM_inv (fun a b => NExt a.1 b.1) (fun _ => NExt.refl _)
         (fun _ _ _ => NExt.trans) _ ?_ _ _ _ hx
       intro acc p
